@@ -9,9 +9,10 @@ RULE = ('every type object of usertypes.py (DateTime for 4 zone labels, one unkn
         'harness/pyvalues.py (ints/floats at the 2^31, 2^53, 2^1024 and 4300-digit edges, NaN/inf/-0.0, numeric, boolean, '
         'JSON, ISO-date and RecordList-repr looking strings, bytes, nested containers, dates and datetimes with moment and '
         'foreign tzinfo, records/record sets, AltText, errors with user input, str/int/float/bytes subclasses, opaque objects '
-        'with failing or number-looking str()); every conversion result is converted again as a further case; thorough adds '
-        'the full cross product of all types with all listed edge values. A case is non-trivial when conversion changed the '
-        'value or took the except path.')
+        'with failing or number-looking str()); random values get a type that has a branch for that kind of value (70%) or '
+        'any type; every listed edge value (~190) is tried with all types that have a branch for it plus one random type; '
+        'every conversion result is converted again as a further case; thorough adds the full cross product of all 19 type '
+        'objects with all listed edge values. A case is non-trivial when conversion changed the value or took the except path.')
 TRUSTED = ['hand-written model Model/Values.v of usertypes.py / objtypes.py, compared with the running functions on every case',
            'Lib/PyFloat.v (exact dyadic model of binary64), validated through the same cases',
            'oracles (Section variable `orc`): float(str/bytes), repr/str of floats, "%.15g", str()/repr() of containers, bytes, dates, '
@@ -125,7 +126,7 @@ def gen_cases(ctx):
   def pick(v):
     return rng.choice(relevant(types, v)) if rng.random() < 0.7 else rng.choice(types)
 
-  n = ctx.n(300, 12000)
+  n = ctx.n(200, 6000)
   for _ in range(n):
     v = pv.gen_value(rng)
     out.append((pick(v), v))
